@@ -190,7 +190,14 @@ func (in *Interp) assume(c *Term) {
 func (in *Interp) replaying() bool { return in.depth < len(in.stack) }
 
 // choose picks one of the alternatives whose condition is feasible.
+func (in *Interp) pastDeadline() {
+	if !in.deadline.IsZero() && time.Now().After(in.deadline) && !in.initing {
+		in.end("inconclusive", "time budget exhausted inside a path")
+	}
+}
+
 func (in *Interp) choose(conds []*Term) int {
+	in.pastDeadline()
 	var d *decision
 	if in.depth < len(in.stack) {
 		d = in.stack[in.depth]
